@@ -1,4 +1,5 @@
 import FractopoModel.Basic.Wire
+import FractopoModel.Basic.PyPrelude
 import FractopoModel.Model.Topology
 import FractopoModel.Spec.Classes
 import FractopoModel.Spec.SandersonNixon
@@ -106,6 +107,13 @@ def bins (a : Args) : Option String := do
   let az ← (a.get? "az") >>= parseRats?
   let idx := az.map fun x => match Spec.binIndex w x with | some i => toString i | none => "out"
   some s!"n={Spec.binCount w} bw={showRat (Spec.binWidth w)} idx={",".intercalate idx}"
+
+/-- `hist edges=<list> vals=<list> w=<list>`: the prelude's `pyHistogram` (the `np.histogram` of the regenerated `determine_azimuth_bins`) -/
+def hist (a : Args) : Option String := do
+  let edges ← (a.get? "edges") >>= parseRats?
+  let vals ← (a.get? "vals") >>= parseRats?
+  let w ← (a.get? "w") >>= parseRats?
+  some s!"heights={showRats (pyHistogram vals edges w)}"
 
 /-- `group keys=a;b;a;b`: groups with the positions of their members -/
 def group (a : Args) : Option String := do
@@ -429,6 +437,7 @@ def dispatch (line : String) : String :=
       | "azimuth" => Cmd.azimuth a
       | "detset" => Cmd.detset a
       | "bins" => Cmd.bins a
+      | "hist" => Cmd.hist a
       | "group" => Cmd.group a
       | "aggregate" => Cmd.aggregate a
       | "circle" => Cmd.circle a
